@@ -21,10 +21,13 @@ def replay(prop, path):
     rep = Report(prop, "quick")
     rep.known_findings = []
     kind = obj.get("kind")
-    if kind == "trace":
-        mod = __import__(obj["driver"])
+    mod = __import__(obj["driver"]) if kind == "trace" and obj.get("driver") else None
+    if mod is not None and hasattr(mod, "rerun"):
         tr = mod.rerun(obj["trace"])
-        mod.validate(rep, [tr], obj.get("invs", []), obj.get("props", []), tag="replay")
+        if obj["driver"] == "hll":
+            mod.validate(rep, [tr], obj.get("invs", []), tag="replay")
+        else:
+            mod.validate(rep, [tr], obj.get("invs", []), obj.get("props", []), tag="replay")
     else:
         print("replay of kind %s: re-running the quick check instead" % kind)
         return globals()["check_" + prop]("quick")
@@ -581,10 +584,11 @@ def check_C08(tier):
     all3 = {"cms", "hh", "hll"}
     combos = [all3, all3, {"cms"}, {"hll"}, {"hh"}, {"cms", "hll"}, {"hh", "hll"}, {"cms", "hh"}]
     if quick:
-        scen = [(1, 4, 0, None), (2, 4, 0, None), (3, 4, 0, None), (4, 5, 0, None)]
+        scen = [(1, 4, 0, None), (2, 4, 0, None), (3, 4, 0, None), (4, 5, 0, None), (2, 0, 0, None), (3, 1, 0, None)]
         per = 6
     else:
-        scen = [(1, 5, 0, None), (2, 4, 0, None), (2, 6, 0, None), (3, 5, 0, None), (4, 6, 0, None), (3, 4, 1, None)]
+        scen = [(1, 5, 0, None), (2, 4, 0, None), (2, 6, 0, None), (3, 5, 0, None), (4, 6, 0, None), (3, 4, 1, None),
+                (2, 0, 0, None), (4, 1, 0, None), (3, 2, 0, None)]
         per = 60
     # real spawned run started first? (no: it must not overlap the in-process runs that patch helpers)
     batch, ok = _padd_replays(rep, rng, scen, per, combos, "c08")
